@@ -46,6 +46,9 @@ type ssaInfo struct {
 	NumSteps int
 	HasCirc  bool
 	MaxBits  int
+	UBD      int      // reads of a value before the step that defines it
+	UBDList  []string // first few
+	DupOut   int      // values defined twice
 	ConstPad int // constant inputs whose wires are padded / truncated by the streamer
 	SignPad  int // ... of signed type defined narrower than used (sign-extending pad)
 }
@@ -116,6 +119,42 @@ func analyse(prog *ssa.Program) *ssaInfo {
 		return int(n)
 	}
 	si.NumSteps = len(prog.Steps)
+	// definition before use / single assignment on Value.ID (the hypotheses
+	// `dbu` and `Nodup outs` of Mpc.C05_gc_safe): a value read by step i must
+	// not be the output of step i or of a later step
+	lastDef := map[ssa.ValueID]int{}
+	nDefs := map[ssa.ValueID]int{}
+	for i := range prog.Steps {
+		in := &prog.Steps[i].Instr
+		if in.Op != ssa.GC && in.Out != nil {
+			lastDef[in.Out.ID] = i
+			nDefs[in.Out.ID]++
+		}
+	}
+	for _, n := range nDefs {
+		if n > 1 {
+			si.DupOut++
+		}
+	}
+	for i := range prog.Steps {
+		in := &prog.Steps[i].Instr
+		if in.Op == ssa.GC {
+			continue
+		}
+		for j := range in.In {
+			v := &in.In[j]
+			if v.Const {
+				continue
+			}
+			if d, ok := lastDef[v.ID]; ok && d >= i {
+				si.UBD++
+				if len(si.UBDList) < 6 {
+					si.UBDList = append(si.UBDList, fmt.Sprintf("step %d `%s` reads %s defined by step %d", i,
+						strings.Join(strings.Fields(in.String()), " "), v.String(), d))
+				}
+			}
+		}
+	}
 	constBitsOf := map[string]int{}
 	for _, c := range prog.Constants {
 		v := c.Const
@@ -363,4 +402,48 @@ func repadConstants(prog *ssa.Program) int {
 		}
 	}
 	return n
+}
+
+// reorderDefBeforeUse re-emits the steps in dependency order (the defining
+// step of every non-constant input first) and drops all gc instructions (they
+// were placed for the wrong order; dropping them is always safe).  Used only
+// to attribute a mismatch to a use before definition.
+func reorderDefBeforeUse(prog *ssa.Program) {
+	var steps []ssa.Step
+	for _, s := range prog.Steps {
+		if s.Instr.Op != ssa.GC {
+			steps = append(steps, s)
+		}
+	}
+	defAt := map[ssa.ValueID]int{}
+	for i := range steps {
+		if steps[i].Instr.Out != nil {
+			defAt[steps[i].Instr.Out.ID] = i
+		}
+		for _, r := range steps[i].Instr.Ret {
+			defAt[r.ID] = i
+		}
+	}
+	emitted := make([]bool, len(steps))
+	var out []ssa.Step
+	var emit func(i int)
+	emit = func(i int) {
+		if emitted[i] {
+			return
+		}
+		emitted[i] = true
+		for _, in := range steps[i].Instr.In {
+			if in.Const {
+				continue
+			}
+			if j, ok := defAt[in.ID]; ok {
+				emit(j)
+			}
+		}
+		out = append(out, steps[i])
+	}
+	for i := range steps {
+		emit(i)
+	}
+	prog.Steps = out
 }
